@@ -160,7 +160,9 @@ class Rule(Expression):
 
             if self.modifier & SILENT:
                 gen.writeln(f"# Silent rule {self.name!r}")
-                gen.writeln(f"{pairs_var}.extend({children})")
+                gen.writeln(f"if {matched_var}:")
+                with gen.block():
+                    gen.writeln(f"{pairs_var}.extend({children})")
                 gen.writeln(f"return {matched_var}")
             else:
                 if not self.modifier & (COMPOUND | NONATOMIC):
@@ -168,7 +170,9 @@ class Rule(Expression):
                     # rules produce pairs.
                     gen.writeln("if hidden:")
                     with gen.block():
-                        gen.writeln(f"{pairs_var}.extend({children})")
+                        gen.writeln(f"if {matched_var}:")
+                        with gen.block():
+                            gen.writeln(f"{pairs_var}.extend({children})")
                         gen.writeln(f"return {matched_var}")
 
                 tag_var = gen.new_temp("tag")
